@@ -50,6 +50,31 @@ theorem lz10_total (x : BA) : ∃ out, compress10 x = .ok out := by
   obtain ⟨out, _, _, h1, _⟩ := compress10_post x
   exact ⟨out, h1⟩
 
+/-- Consequently LZ10 compression is injective below 16 MiB: two different inputs never share a
+compressed image (nothing is lost that decompression would need). -/
+theorem lz10_injective (x y : BA) (hx : x.size < 2 ^ 24) (hy : y.size < 2 ^ 24)
+    (h : compress10 x = compress10 y) : x = y := by
+  obtain ⟨ox, hx1, hx2, _⟩ := lz10_roundtrip x hx
+  obtain ⟨oy, hy1, hy2, _⟩ := lz10_roundtrip y hy
+  have : ox = oy := by
+    have := hx1.symm.trans (h.trans hy1)
+    injection this
+  subst this
+  have := hx2.symm.trans hy2
+  injection this
+
+/-- The first four bytes of every LZ10 image below 16 MiB are the type byte and the input length,
+little endian — the part of the contract a foreign decoder reads first, stated without the
+specification's vocabulary. -/
+theorem lz10_header (x : BA) (hx : x.size < 2 ^ 24) :
+    ∃ out rest, compress10 x = .ok out ∧
+      out.toList = 0x10 :: UInt8.ofNat (x.size % 256) :: UInt8.ofNat (x.size / 256 % 256) ::
+        UInt8.ofNat (x.size / 65536 % 256) :: rest := by
+  obtain ⟨out, toks, h1, ⟨body, h2, _⟩, _, _⟩ := lz10_correct x hx
+  refine ⟨out, body, h1, ?_⟩
+  rw [h2]
+  simp [header, leBytes, Nat.div_div_eq_div_mul]
+
 /-! Non-vacuity: the hypotheses are satisfiable by concrete inputs (the empty one included). -/
 example : ∃ out, compress10 #[1, 1, 1, 1, 1, 1, 2] = .ok out ∧
     decompress10 out.toList = .ok #[1, 1, 1, 1, 1, 1, 2] :=
